@@ -271,6 +271,8 @@ def exec_step(step):
     tp = common.use_repo()
     import torch
     import numpy as np
+    if step["op"] == "live":
+        return exec_live(tp, torch, np, step)
     try:
         text, res_json, objs = call_impl(tp, torch, np, step)
     except common.HarnessTrouble:
@@ -282,6 +284,163 @@ def exec_step(step):
     with g:
         oracles(tp, torch, np, step, objs, problems)
     return dict(text=text, problems=problems, result=res_json, crashes=g.crashes)
+
+
+def observe(tp, torch, live, exp, items, where, problems):
+    """ALL read accessors of a live object against the state it must be in (`exp`, tracked with plain
+    torch by the harness): a stale cache behind any accessor shows up here"""
+    Points = tp.spaces.Points
+    bshape = list(exp.shape[:-1])
+
+    def bad(msg):
+        problems.append(f"{where}: {msg}")
+    if list(live.space.items()) != [tuple(x) for x in items]:
+        bad(f"space is {list(live.space.items())}, expected {items}")
+        return
+    if not tensor_eq(torch, live.as_tensor, exp):
+        bad(f"as_tensor is {live.as_tensor.tolist()}, the table must hold {exp.tolist()}")
+    if int(len(live)) != _prod(bshape) or list(live.shape) != bshape or live.dim != exp.shape[-1]:
+        bad(f"len/shape/dim = {int(len(live))}/{list(live.shape)}/{live.dim}, expected {_prod(bshape)}/{bshape}/{exp.shape[-1]}")
+    if bool(live.isempty) != (_prod(bshape) == 0 and exp.shape[-1] == 0):
+        bad("isempty is wrong")
+    if live.variables != {n for n, _ in items}:
+        bad("variables is not the set of names")
+    c = live.coordinates
+    if list(c.keys()) != [n for n, _ in items]:
+        bad(f"coordinates has keys {list(c.keys())}")
+    for n, _ in items:
+        cols = ref_cols([tuple(x) for x in items], [n])
+        want = exp[..., cols] if cols else exp[..., :0]
+        if n in c and not tensor_eq(torch, c[n], want):
+            bad(f"coordinates[{n!r}] = {c[n].tolist()} but the columns of {n} hold {want.tolist()}")
+        got = live[..., n]
+        if list(got.space.items()) != [(n, len(cols))] or not tensor_eq(torch, got.as_tensor, want):
+            bad(f"points[..., {n!r}] = {got.as_tensor.tolist()} but the columns of {n} hold {want.tolist()}")
+    if items:
+        allnames = tuple(n for n, _ in items)
+        got = live[..., allnames]
+        if not tensor_eq(torch, got.as_tensor, exp):
+            bad("points[..., all names] differs from the table")
+        if not (Points.from_coordinates(dict(live.coordinates)) == live):
+            bad("Points.from_coordinates(p.coordinates) != p")
+    twin = Points(exp.clone(), mk_space(tp, items))
+    if not (live == twin) or not (twin == live):
+        bad("p == (a fresh Points with the same space and cells) is False")
+    if exp.numel() and (live == Points(exp + 1, mk_space(tp, items))):
+        bad("p == (Points with different cells) is True")
+    rows = [r.as_tensor for r in live] if len(bshape) == 1 and bshape[0] <= 4 else None
+    if rows is not None and (len(rows) != bshape[0] or any(not tensor_eq(torch, r, exp[i:i + 1]) for i, r in enumerate(rows))):
+        bad("iteration does not yield the rows")
+
+
+def exec_live(tp, torch, np, step):
+    """one REAL object kept alive over a script of assignments and reads; every accessor is observed
+    before the first and after every sub-step"""
+    problems, g = [], Guard()
+    items = step["p"]["space"]
+    live = mk_points(tp, torch, step["p"])
+    exp = torch.tensor(step["p"]["vals"], dtype=torch.float64).reshape(step["p"]["shape"])
+    with g:
+        observe(tp, torch, live, exp, items, "before the first operation", problems)
+    for k, sub in enumerate(step["script"]):
+        cur = dict(space=items, shape=list(exp.shape), vals=[float(v) for v in exp.reshape(-1).tolist()])
+        where = f"after step {k + 1} ({sub['op']} {describe_index(sub['ix']) if 'ix' in sub else ''})"
+        if sub["op"] == "set":
+            rhs = mk_points(tp, torch, sub["q"])
+            try:
+                live[index_py(torch, np, sub["ix"])] = rhs
+            except Exception as e:
+                return dict(text="err", problems=problems, result=None, crashes=g.crashes,
+                            exc=f"step {k + 1}: {type(e).__name__}: {str(e)[:100]}")
+            ref = ref_getitem(torch, np, cur, sub["ix"])
+            if ref is None:
+                raise common.HarnessTrouble("live script with an index outside the reference fragment")
+            _, _, bidx, cols = ref
+            sel = exp[..., cols].clone() if cols else exp[..., :0].clone()
+            sel[bidx] = rhs.as_tensor
+            if cols:
+                exp = exp.clone()
+                exp[..., cols] = sel
+        else:
+            sstep = dict(sub, p=cur)
+            sstep["op"] = {"get": "pts.get", "coords": "pts.coords", "repeat": "pts.repeat", "unsq": "pts.unsq",
+                           "eq": "pts.eq", "arith": "pts.arith", "cat": "pts.cat"}[sub["op"]]
+            with g:
+                try:
+                    if sub["op"] == "get":
+                        o = dict(r=live[index_py(torch, np, sub["ix"])], p=live, before=exp.clone())
+                    elif sub["op"] == "coords":
+                        o = dict(p=live, c=live.coordinates)
+                    elif sub["op"] == "repeat":
+                        o = dict(r=live.repeat(*sub["ns"]), p=live)
+                    elif sub["op"] == "unsq":
+                        o = dict(r=live.unsqueeze(sub["d"]), p=live)
+                    elif sub["op"] == "cat":
+                        other = mk_points(tp, torch, sub["q"])
+                        o = dict(r=live | other, p=live, q=other)
+                    else:
+                        other = mk_points(tp, torch, sub["q"])
+                        o = dict(r=live + other)
+                        sstep["f"] = "add"
+                except Exception:
+                    o = None
+                if o is not None:
+                    sub_problems = []
+                    oracles(tp, torch, np, sstep, o, sub_problems)
+                    problems += [f"{where}: {m}" for m in sub_problems]
+        with g:
+            observe(tp, torch, live, exp, items, where, problems)
+    return dict(text=canon_pts(live), problems=problems, result=None, crashes=g.crashes)
+
+
+def gen_live(rng, n):
+    steps = []
+    for _ in range(n):
+        items = gen_space_items(rng, 2, 5)
+        names = [nm for nm, _ in items]
+        bshape = [rng.randint(1, 3) for _ in range(rng.choice([1, 1, 1, 2]))]
+        p = gen_points_json(rng, items, bshape)
+        script = []
+        for _ in range(rng.randint(2, 6)):
+            c = rng.random()
+            if c < 0.55:
+                kc = rng.random()
+                if kc < 0.55:
+                    key = ["W", rng.sample(names, rng.randint(1, len(names))), rng.choice(["tuple", "list"])]
+                elif kc < 0.7:
+                    key = ["V", rng.choice(names)]
+                elif kc < 0.85:
+                    key = ["S", rng.choice([None, rng.choice(names)]), None, rng.choice([None, None, -1, 2])]
+                else:
+                    key = None
+                rows = _row_items(rng, bshape, True)
+                if key is None:
+                    if any(i[0] == "E" for i in rows) and rows[-1][0] != "E":
+                        rows = [["E"]]       # `..., item` would make the item a column key
+                    ix = dict(kind="tup", items=rows)
+                else:
+                    ix = dict(kind="tup", items=rows + [key])
+                rs = result_shape_and_space(p, ix)
+                if rs is None:
+                    continue
+                sh, sp = rs
+                if not sh or rng.random() < 0.15:
+                    sh = [1]
+                script.append(dict(op="set", ix=ix, q=gen_points_json(rng, sp, sh)))
+            elif c < 0.7:
+                script.append(dict(op="coords"))
+            elif c < 0.82:
+                script.append(dict(op="get", ix=gen_index(rng, p)))
+            elif c < 0.88:
+                script.append(dict(op="repeat", ns=[rng.randint(1, 2)]))
+            elif c < 0.93:
+                script.append(dict(op="unsq", d=rng.randint(0, len(bshape))))
+            elif c < 0.97:
+                script.append(dict(op="arith", q=gen_points_json(rng, items, bshape)))
+            else:
+                script.append(dict(op="cat", q=gen_points_json(rng, items, [rng.randint(1, 2)] + bshape[1:])))
+        steps.append(dict(op="live", p=p, script=script))
+    return steps
 
 
 def call_impl(tp, torch, np, step):
@@ -621,6 +780,11 @@ def model_line(step):
         return f"{op} {pts_tok(step['p'])} {index_tok(normalise_index(step['ix'], len(step['p']['shape'])))}"
     if op == "pts.set":
         return f"{op} {pts_tok(step['p'])} {index_tok(normalise_index(step['ix'], len(step['p']['shape'])))} {pts_tok(step['q'])}"
+    if op == "live":
+        sets = [m for m in step["script"] if m["op"] == "set"]
+        nd = len(step["p"]["shape"])
+        return f"pts.live {pts_tok(step['p'])} {len(sets)} " + " ".join(
+            f"{index_tok(normalise_index(m['ix'], nd))} {pts_tok(m['q'])}" for m in sets)
     if op == "pts.arith":
         return f"{op} {step['f']} {pts_tok(step['p'])} {pts_tok(step['q'])}"
     if op in ("pts.cat", "pts.join", "pts.eq"):
@@ -1067,6 +1231,8 @@ def gen_multiname(rng, n_random):
 
 def op_class(step):
     op = step["op"]
+    if op == "live":
+        return "live:object-with-%d-assignments" % min(4, sum(1 for m in step["script"] if m["op"] == "set"))
     if op == "pts.get" or op == "pts.set":
         ix = step["ix"]
         kinds = "".join(sorted({i[0] for i in ix["items"] if isinstance(i, list)})) if ix["kind"] != "lst" else "pylist"
@@ -1079,6 +1245,11 @@ def op_class(step):
 def judge(rep, step, res, reply, count=True):
     if count:
         rep.count(op_class(step))
+        if step["op"] == "live":
+            rep.count("live:sub-steps", len(step["script"]))
+            rep.count("live:observations of all accessors", len(step["script"]) + 1)
+            if res["text"] == "err":
+                rep.count("live:script rejected")
         if step["op"] in ("pts.set", "pts.get") and step["ix"]["kind"] == "tup" and step["ix"]["items"] \
                 and step["ix"]["items"][-1][0] == "W" and res["text"] != "err":
             key = list(step["ix"]["items"][-1][1])
@@ -1119,6 +1290,8 @@ def all_steps(ctx):
     out = []
     for st in gen_targeted(rng, ctx.scale(150, 1500)):
         out.append((st, exec_step(st)))
+    for st in gen_live(rng, ctx.scale(400, 4000)):
+        out.append((st, exec_step(st)))
     for st in gen_multiname(rng, ctx.scale(600, 6000)):
         res = exec_step(st)
         out.append((st, res))
@@ -1139,7 +1312,8 @@ def all_steps(ctx):
     return out
 
 
-RULE = ("multi-name column keys in every order (exhaustive over two 4-variable spaces and five 1-dimensional variables, random up to 5 variables / 15 columns) for read and "
+RULE = ("live objects: one real Points object kept alive over a script of assignments and reads, ALL read accessors observed "
+        "before the first and after every operation; multi-name column keys in every order (exhaustive over two 4-variable spaces and five 1-dimensional variables, random up to 5 variables / 15 columns) for read and "
         "assignment; seeded histories (4-12 operations each) on random spaces (1-5 variables, dims 1-3; 0-dim and repeated names in the "
         "Space stream), 1-3 batch axes of length 0-4, integer-valued float64 cells; index expressions from a grammar (int, slice "
         "with step, list/tensor/array, bool mask, Ellipsis, name, tuple/list of names, name slices, malformed forms); every step is "
